@@ -122,8 +122,12 @@ def _bd(face, d, named):
     return G.bd_name(d, face) if named else (int(face[0]), int(face[1]))
 
 
-def run_joins(ctx, labels, ifaces, seq, style):
-    """Build Multipatch, apply the join sequence, return (MP, shapes, uf)."""
+def run_joins(ctx, labels, ifaces, seq, style, stages=()):
+    """Build Multipatch, apply the join sequence, return (MP, shapes, uf).
+    `stages`: positions in the join sequence at which the structure is finalized and fully queried (judge_gluing against the
+    identifications declared so far) before further joins are declared and it is finalized again.  Declaring joins after a
+    finalize() may be refused with an exception (then the case is skipped); if it is accepted, the numbering after the next
+    finalize() must be the closure of ALL joins declared on the object."""
     from pyiga import assemble
     shapes = [L.shape for L in labels]
     d = len(shapes[0])
@@ -135,18 +139,26 @@ def run_joins(ctx, labels, ifaces, seq, style):
             uf.add((p, i))
     named = bool(style & 1)
     flipnone = bool(style & 2)
-    for (k, swap) in seq:
+    staged = False
+    refuse = ()
+    for pos, (k, swap) in enumerate(seq):
+        if pos in stages and pos > 0:
+            ctx.sut(MP.finalize, what="finalize", accept=refuse)
+            judge_gluing(ctx, MP, shapes, uf)
+            staged = True
+            refuse = (RuntimeError, ValueError, NotImplementedError)   # an explicit refusal of late joins is not a violation
+            ctx.flag("joins_after_finalize")
         p1, f1, p2, f2, flip = ifaces[k % len(ifaces)]
         if swap:
             p1, f1, p2, f2 = p2, f2, p1, f1
         if flipnone and not any(flip):
-            ctx.sut(MP.join_boundaries, p1, _bd(f1, d, named), p2, _bd(f2, d, named), what="join_boundaries")
+            ctx.sut(MP.join_boundaries, p1, _bd(f1, d, named), p2, _bd(f2, d, named), what="join_boundaries", accept=refuse)
         else:
             ctx.sut(MP.join_boundaries, p1, _bd(f1, d, named), p2, _bd(f2, d, named), flip=tuple(flip),
-                    what="join_boundaries")
+                    what="join_boundaries", accept=refuse)
         for a, b in G.join_pairs(shapes[p1], f1, shapes[p2], f2, flip):
             uf.union((p1, a), (p2, b))
-    ctx.sut(MP.finalize, what="finalize")
+    ctx.sut(MP.finalize, what="finalize", accept=refuse)
     return MP, shapes, uf
 
 
@@ -213,7 +225,7 @@ def check_joins(spec, ctx):
     if not ifaces:
         raise Skip("no interfaces")
     seq = spec["seq"]
-    MP, shapes, uf = run_joins(ctx, labels, ifaces, seq, spec.get("style", 0))
+    MP, shapes, uf = run_joins(ctx, labels, ifaces, seq, spec.get("style", 0), stages=tuple(spec.get("stages", ())))
     idxs, cls, ncls = judge_gluing(ctx, MP, shapes, uf)
     ks = set(k % len(ifaces) for k, _ in seq)
     if len(ks) == len(ifaces):
@@ -268,6 +280,13 @@ def enum_joins(tier):
     for v in range(nvar):
         cx = {"kind": "grid", "sizes": [[2, 3], [3, 2]] if v % 2 else [[2, 2], [2, 2]], "rep": _rep_pattern(4, 2, v)}
         add_orders(cx, itertools.permutations(range(4)), style=v % 4)
+    # 2x2 histories: every order x every position (and pair of positions) at which the structure is finalized and queried
+    # before the remaining interfaces are declared
+    for v in range(2 if quick else 12):
+        cx = {"kind": "grid", "sizes": [[2, 3], [3, 2]] if v % 2 else [[2, 2], [2, 2]], "rep": _rep_pattern(4, 2, v)}
+        for od in itertools.permutations(range(4)):
+            for stg in ([1], [2], [3], [1, 3], [1, 2, 3]):
+                out.append({"cx": cx, "seq": [[k, 0] for k in od], "style": v % 4, "stages": stg})
     for v in (0, 5):
         cx = {"kind": "grid", "sizes": [[2, 2], [2, 2]], "rep": _rep_pattern(4, 2, v)}
         for L in range(0, 6 if quick else 7):
@@ -342,7 +361,11 @@ def strat_joins(draw, tier):
             pos = draw(st.integers(0, len(seq)))
             seq.insert(pos, draw(st.integers(0, ni - 1)))
     swaps = draw(st.lists(st.integers(0, 1), min_size=len(seq), max_size=len(seq)))
-    return {"cx": cx, "seq": [[int(k), int(s)] for k, s in zip(seq, swaps)], "style": draw(st.integers(0, 3))}
+    spec = {"cx": cx, "seq": [[int(k), int(s)] for k, s in zip(seq, swaps)], "style": draw(st.integers(0, 3))}
+    if len(seq) >= 2 and draw(st.integers(0, 2)) == 0:
+        # history: joins - finalize - queries - further joins - finalize - queries
+        spec["stages"] = sorted(set(draw(st.lists(st.integers(1, len(seq) - 1), min_size=1, max_size=2))))
+    return spec
 
 
 # =============================================================================================
